@@ -92,6 +92,10 @@ class MinuitFitter(Fitter):
 
     def limit_parameters(self, dct):  # noqa: D402
         """limit_parameters({'p1': (lo, hi), ...}."""
+        for k in dct:
+            if k not in self.theory.parameters:
+                raise ValueError('Parameter {} is not defined in model {}'.format(
+                        k, self.theory))
         self.theory.parameters_limits.update(dct)
         for k, v in dct.items():
             self.minuit.limits[k] = v
